@@ -2,6 +2,25 @@
 over the shards; budgets are case counts, never time."""
 
 PROPS = {
+    "C07": {
+        "pkg": "c07", "needs_gw": False, "level": "exploration",
+        "technique": "property-based testing (rapid) + native fuzzing: generated key trees x prefix x delimiter x max-keys x marker against a reference S3 listing model, on backend.Walk and end to end (ListObjects V1/V2 paging)",
+        "level_text": ("Generated-input search with a model oracle: key sets built by construction (names chosen to collide with '/' in byte order, "
+                       "nesting, explicit directory objects, keys that are prefixes of others) are listed with generated prefix / delimiter "
+                       "(incl. multi-character and non-'/') / max-keys / marker; the concatenation of the pages obtained by following the returned "
+                       "markers must equal the S3 listing rule's sequence exactly once, each page <= max-keys and ascending, pagination must "
+                       "terminate, bookkeeping names never appear, sizes and ETags are the objects' (layer B)."),
+        "level_note": "model/listing.go is the oracle; where S3 leaves a choice (marker strictly inside a common-prefix group) both sequences are accepted. Preconditions of the posix mapping are generator constraints (file/directory clash; a directory object with children is only a prefix under delimiter listings; plain empty directories are not reachable through the API).",
+        "rule": ("cases = (files, explicit directory objects, prefix, delimiter, marker, max-keys[, V1/V2, raw max-keys]). Non-trivial: the listing has "
+                 ">= 2 pages, or the delimiter groups keys, or directory-walk order differs from key order; distinct by the full tuple."),
+        "assumptions": ["layer A uses testing/fstest.MapFS and a getObj that reports explicit directory objects, as posix.fileToObj does",
+                        "layer B runs the in-process gateway (wiring shim copied from runGateway)"],
+        "jobs": [
+            {"run": "TestC07A", "quick": 400000, "thorough": 12000000, "shards_quick": 8, "shards_thorough": 16},
+            {"run": "TestC07B", "quick": 16000, "thorough": 400000, "shards_quick": 8, "shards_thorough": 16},
+        ],
+        "fuzz": [{"target": "FuzzC07", "seconds": 600}],
+    },
     "C12": {
         "pkg": "c12", "needs_gw": False, "level": "exploration",
         "technique": "property-based testing (rapid) + native coverage-guided fuzzing of the exported chunk readers: round trip under generated fragmentation / buffer sizes, field-classified mutants and truncations must be rejected",
